@@ -1171,6 +1171,28 @@ func (c *CEnv) callFn(e *Expr) cv {
 			}
 		}
 	}
+	if name == "params" {
+		// params(): the module's Params value (the ghost constant behind GetParamSet / GetParams)
+		want := "/x/mhub2/types"
+		if c.x.rootFn != nil && strings.Contains(c.x.rootFn.String(), "/x/oracle") {
+			want = "/x/oracle/types"
+		}
+		var t types.Type
+		for _, p := range c.x.e.prog.AllPackages() {
+			if p.Pkg != nil && strings.HasSuffix(p.Pkg.Path(), want) {
+				if m := p.Type("Params"); m != nil {
+					t = m.Type()
+				}
+			}
+		}
+		if t == nil {
+			c.fail("no Params type in %s", want)
+		}
+		so := c.x.e.sortOf(t)
+		nm := "params_" + mangle(so)
+		c.x.e.declareFun(nm, "() "+so)
+		return cv{V: T{S: nm, So: so}, T: t}
+	}
 	if name == "param" {
 		// param("Key"): the integer module parameter stored under that key (the ghost function behind Subspace.Get)
 		c.x.e.declareFun("param_Int", "(String) Int")
